@@ -1,8 +1,9 @@
 """C09 -- Reading RING text always ends with a query or a RING error.
 
 Deductive (for all strings, all positions): position invariant and progress of the character-level scanners,
-termination of their loops, int() only on text it accepts.  Data obligations on the real grammar object: every
-referenced rule is defined, no rule reaches itself without consuming input, the root requires end of input.
+termination of their loops, int() only on text it accepts.  Combinators / ParseState.parse / __enter__ / __exit__: C09comb.py.
+Data obligations on the real grammar object: every referenced rule is defined, no rule reaches itself without consuming input,
+the root requires end of input, repetition bodies are not nullable, no empty Either, root is a rule name.
 The readers (tree walkers over RDKit) are covered by the bounded stand-in at the end of this file."""
 import z3
 
@@ -15,8 +16,10 @@ from .spec import check_outcome
 
 PROPERTY = 'C09'
 LEVEL = 'other'
-EXPLANATION = ('scanners: deductive obligations (pyvc, z3 strings) for all strings and positions; grammar: data obligations evaluated exhaustively on the '
-               'real grammar objects; combinators and tree readers: bounded stand-in only (listed under bounded, not counted in obligations)')
+EXPLANATION = ('scanners: deductive obligations (pyvc, z3 strings) for all strings and positions; combinators, ParseState.parse and the backtracking '
+               'context manager: deductive obligations against the parser contract (position arithmetic only, abstract children, loop invariants and a '
+               'termination variant); grammar: data obligations evaluated exhaustively on the real grammar objects (the premises of the induction '
+               'over the grammar, which is a paper step); tree readers over RDKit: bounded stand-in only (listed under bounded, not counted)')
 PARSER = 'pgradd/RINGParser/Parser.py'
 AllDec = z3.Function('AllDecimal', z3.StringSort(), z3.BoolSort())
 TRUSTED = ['str: isdigit/isdecimal/isalpha/isspace on one character are uninterpreted predicates constrained by CPython facts '
@@ -403,6 +406,33 @@ def data_grammar(tier, seed):
             viol.append({'id': '%s-no-end-of-input' % which, 'input': root, 'observed': 'root rule does not require end of input: trailing text is ignored',
                          'expected': 'EOS() at the end of the root rule',
                          'script': "from pgradd.RINGParser.Reader import Read\nprint(Read('fragment a{ C labeled c1 } garbage !!'))  # expected RINGSyntaxError\n"})
+        # (4)-(6) premises of the combinator contracts (C09comb): the body of every repetition is not nullable (else ZeroOrMore loops
+        # forever at one position), no Either is empty (it would `raise None`), the root is the name of a defined rule,
+        # every item is a parser object or a rule name (anything else is a TypeError in ParseState.parse)
+        from pgradd.RINGParser import Parser as P
+
+        def walk(p, seen):
+            if isinstance(p, str) or id(p) in seen:
+                return
+            seen[id(p)] = p
+            for c in (refs(p)[1] if not isinstance(p, P.Literals) else list(p.alts)):
+                walk(c, seen)
+        objs = {}
+        for r in rules.values():
+            walk(r, objs)
+        for p in objs.values():
+            n += 1
+            if isinstance(p, P.ZeroOrMore) and is_nullable(p.what):
+                viol.append({'id': '%s-nullable-repetition' % which, 'input': repr(p)[:120], 'observed': 'the repeated parser can succeed without consuming input: ZeroOrMore never ends',
+                             'expected': 'a non-nullable body'})
+            if isinstance(p, P.Either) and len(p.alts) == 0:
+                viol.append({'id': '%s-empty-either' % which, 'input': repr(p)[:120], 'observed': 'Either() without alternatives raises None (TypeError)', 'expected': '>= 1 alternative'})
+            for c in (refs(p)[1] if not isinstance(p, P.Literals) else list(p.alts)):
+                if not isinstance(c, (str, P.Parser)):
+                    viol.append({'id': '%s-not-a-parser' % which, 'input': repr(c)[:120], 'observed': 'neither a parser object nor a rule name', 'expected': 'Parser or str'})
+        n += 1
+        if not (isinstance(root, str) and root in rules):
+            viol.append({'id': '%s-root' % which, 'input': repr(root)[:80], 'observed': 'root is not the name of a defined rule', 'expected': 'a rule name'})
     return {'name': 'grammar-closed-wellfounded-eos', 'obligations': n, 'violations': viol, 'exhaustive': True,
             'bound': 'every rule of strict_grammar and enhanced_grammar'}
 
@@ -594,3 +624,6 @@ UNITS = [
 
 for _u in UNITS:
     _u.branch_timeout_ms = 250    # string feasibility queries rarely decide; an undecided branch is explored (sound)
+
+from . import C09comb     # noqa: E402
+UNITS = UNITS + C09comb.UNITS      # combinators and ParseState.parse against the parser contract (no string theory)
